@@ -55,7 +55,7 @@ BOUND = {
     "quick": "root of 2 items (ragged keys, one nested mutable object value); families of <= 4 lists; all event sequences "
              "to depth 4; per member 12 simple derives + map (identity / rebuilding callback), group_by, aggregate (plain / with a summary function that edits its group) and full_join - methods the statement does not name, whose relation to the receiver is observed - + sample(1|2) x every RNG answer + semi/anti join x every "
              "other member and a literal as right-hand list; 9 edits + inner/left join x the same right-hand "
-             "lists; deepcopy; 2 kinds of use",
+             "lists; deepcopy; 8 kinds of plain use (pluck, to_string, to_json, to_data_frame, write_csv, write_json, repr, a sort by a key no item has)",
     "thorough": "same event alphabet; families of <= 5 lists; all event sequences to depth 6",
 }
 TIME_CAP = {"quick": 300, "thorough": 3000}
@@ -132,6 +132,20 @@ def _nested(it):
     return it["n"]
 
 
+def _try(f):
+    """A plain use whose own success is not the point here (exporting items that hold arbitrary objects may fail, sorting
+    by a key that some items lack does): whatever it does, no item changes and nobody becomes obsolete."""
+    try:
+        f()
+    except Exception:
+        _stat("plain_use_raised")
+    return None
+
+
+def _scratch(name):
+    return os.path.join(os.environ.get("MC_SCRATCH") or "/tmp", f"c17-{os.getpid()}-{name}")
+
+
 CALL = {
     # non-modifying (statement: filter, sort, unique, head, tail, slicing, copy, reverse, sample, semi/anti join)
     "filter_fn": lambda x, r, ev: x.filter(lambda it: it["k"] == 1),
@@ -187,12 +201,19 @@ CALL = {
     "deepcopy": lambda x, r, ev: x.deepcopy(),
     "pluck": lambda x, r, ev: x.pluck("k"),
     "to_string": lambda x, r, ev: x.to_string(),
+    # further plain uses: exports, files, rendering, and a sort that cannot succeed
+    "to_json": lambda x, r, ev: _try(lambda: x.to_json()),
+    "to_data_frame": lambda x, r, ev: _try(lambda: x.to_data_frame()),
+    "write_csv": lambda x, r, ev: _try(lambda: x.write_csv(_scratch("w.csv"))),
+    "write_json": lambda x, r, ev: _try(lambda: x.write_json(_scratch("w.json"))),
+    "repr": lambda x, r, ev: _try(lambda: repr(x)),
+    "sort_absent_key": lambda x, r, ev: _try(lambda: x.sort(a=1, zz=-1)),
 }
 SIMPLE_D = ("filter_fn", "filter_kv", "sort", "unique", "head", "head0", "tail", "slice", "copy", "copy_std", "reverse",
             "chain_filter_sort", "chain_slice_reverse")
 SIMPLE_E = ("modify", "modify_if", "modify_if_nested", "rename", "select", "unselect", "fill", "fill_kv")
 MAPS = ("map_identity", "map_tag", "group_by", "aggregate", "aggregate_editing", "deepcopy_std", "full_join_lit", "full_join_empty", "mul2", "rmul1", "add_self")
-USES = ("pluck", "to_string")
+USES = ("pluck", "to_string", "to_json", "to_data_frame", "write_csv", "write_json", "repr", "sort_absent_key")
 # which method of the statement each op instantiates (for the reference model and reports)
 METHOD = {"copy_std": "copy", "filter_fn": "filter", "filter_kv": "filter", "modify_if_nested": "modify_if",
           "chain_filter_sort": "sort", "chain_slice_reverse": "reverse", "head0": "head",
@@ -220,6 +241,9 @@ SOURCE = {
     "fill": "{x}.fill_missing_keys()", "fill_kv": "{x}.fill_missing_keys(a=0)",
     "inner_join": "{x}.inner_join({r}, 'k')", "left_join": "{x}.left_join({r}, 'k')",
     "deepcopy": "{x}.deepcopy()", "pluck": "{x}.pluck('k')", "to_string": "{x}.to_string()",
+    "to_json": "{x}.to_json()  # (exceptions ignored)", "to_data_frame": "{x}.to_data_frame()  # (exceptions ignored)",
+    "write_csv": "{x}.write_csv(path)  # (exceptions ignored)", "write_json": "{x}.write_json(path)  # (exceptions ignored)",
+    "repr": "repr({x})", "sort_absent_key": "{x}.sort(a=1, zz=-1)  # (a key no item has: exceptions ignored)",
 }
 
 
